@@ -3,7 +3,7 @@
 #   tools/scratch_run.sh <patch.diff|--revert <commit>|--none> <tier> <Cxx> [<Cyy> ...]
 # Scratch lives in /root/scratch/main (worktree + harness copy + its own target dir).
 set -u
-S=/root/scratch/main
+S=${SCRATCH_DIR:-/root/scratch/main}
 mkdir -p $S
 if [ ! -d $S/repo/.git ] && [ ! -f $S/repo/.git ]; then
   git -C /repo worktree add --detach $S/repo HEAD >/dev/null 2>&1 || { echo "worktree add failed"; exit 2; }
